@@ -208,8 +208,129 @@ COMPONENTS = ["count", "index", "list", "interior_ring", "node_count", "part_nod
               "interpolation_parameter", "bogus"]
 
 
-def make_call(x, name, kind, rng, other=None, inplace=None):
-    """(callable, description) or None.  `inplace` is True/False/None (None: leave the default)."""
+STYLES = ("valid", "invalid", "unusual")
+
+
+def _perturb(x, name, kw, rng, style, d, nd):
+    """Turn generated (mostly valid) keyword arguments of an in-place-switchable method into INVALID ones (the call
+    is expected to raise — possibly half-way) or into VALID BUT UNUSUAL ones (explicit axes that differ from the
+    current data axes, square data with swapped axes, arguments for a data-less template).  All from `rng`."""
+    C = cfdm()
+    shape = ()
+    try:
+        shape = tuple(int(s) for s in d.shape) if d is not None else ()
+    except Exception:
+        pass
+    isfield = isinstance(x, C.Field)
+    if style == "invalid":
+        if name == "squeeze":
+            big = [i for i, s in enumerate(shape) if s != 1]
+            kw["axes"] = rng.choice([[nd + 2], [-nd - 3], big[:1] or [7], [0, 0], "x", [1.5]])
+        elif name == "transpose":
+            kw["axes"] = rng.choice([list(range(nd)) + [nd], [0] * max(nd, 1), list(range(1, nd + 1)), [nd + 4], "xy",
+                                     list(range(max(nd - 1, 0)))])
+            if isfield and rng.random() < 0.5:
+                kw["constructs"] = True
+        elif name == "insert_dimension":
+            if isfield:
+                spanned = list(x.get_data_axes(default=()))
+                bigs = [k for k in _keys(x, ("domain_axis",)) if x.constructs[k].get_size(0) != 1 and k not in spanned]
+                kw["axis"] = rng.choice(spanned[:1] + bigs[:1] + ["domainaxis99", 3])
+                if rng.random() < 0.5:
+                    kw["position"] = rng.choice([nd + 3, -nd - 4])
+            else:
+                kw["position"] = rng.choice([nd + 3, -nd - 4, "x", 1.5])
+        elif name == "flatten":
+            kw["axes"] = rng.choice([[nd + 2], [0, 0], "x"])
+        elif name == "compress":
+            kw["method"] = rng.choice(["bogus", "contiguous" if nd != 2 else "indexed_contiguous", None])
+        elif name == "apply_masking":
+            if "fill_values" in kw or not hasattr(x, "get_data"):
+                kw.update(rng.choice([dict(valid_range=[1.0, 2.0, 3.0]), dict(valid_min=1.0, valid_range=[0.0, 5.0]),
+                                      dict(valid_max=9.0, valid_range=[0.0, 5.0]), dict(valid_range=3.0)]))
+            else:
+                return False
+        elif name == "masked_values":
+            kw["value"] = rng.choice(["x", None, [1, 2, 3, 4, 5, 6, 7]])
+        elif name == "filled":
+            kw["fill_value"] = rng.choice(["x", [1, 2, 3, 4, 5, 6, 7]])
+        elif name == "set_data":
+            bad = C.Data(__import__("numpy").arange(float((shape[0] if shape else 1) + 3)).reshape(-1, 1, 1)[:, :, :0 + 1])
+            r = rng.random()
+            if isfield:
+                axes = list(x.get_data_axes(default=()))
+                allax = _keys(x, ("domain_axis",))
+                if r < 0.25:
+                    kw["axes"] = axes + ["domainaxis99"]          # too many / unknown
+                elif r < 0.45:
+                    kw["axes"] = ["domainaxis98"] * max(nd, 1)
+                elif r < 0.65 and allax:
+                    kw["axes"] = [rng.choice(allax)] * max(nd, 2)  # repeated
+                elif r < 0.85:
+                    kw["data"] = bad                               # wrong shape for the recorded / given axes
+                    if rng.random() < 0.5 and axes:
+                        kw["axes"] = axes
+                else:
+                    kw["axes"] = axes[:-1] if axes else ["domainaxis0"]
+            else:
+                kw["data"] = rng.choice([bad, "not data", 3.5]) if r < 0.7 else C.Data(
+                    __import__("numpy").zeros((2, 3, 2, 2)))
+        else:
+            return False
+        return True
+    if style == "unusual":
+        if name == "set_data" and isfield:
+            axes = list(x.get_data_axes(default=()))
+            allax = _keys(x, ("domain_axis",))
+            sizes = {k: x.constructs[k].get_size(None) for k in allax}
+            r = rng.random()
+            np = __import__("numpy")
+            if r < 0.4 and len(axes) >= 2:
+                # explicit axes in another order, data shaped for that order (square or not)
+                perm = axes[:]
+                rng.shuffle(perm)
+                if perm == axes:
+                    perm = axes[::-1]
+                shp = [sizes[k] or 1 for k in perm]
+                kw["axes"] = perm
+                kw["data"] = C.Data(np.arange(float(np.prod(shp))).reshape(shp), units="K")
+            elif r < 0.7 and allax:
+                # other axes than the current ones (a subset / other domain axes of the field)
+                pick = rng.sample(allax, rng.randint(1, min(3, len(allax))))
+                shp = [sizes[k] or 1 for k in pick]
+                kw["axes"] = pick
+                kw["data"] = C.Data(np.arange(float(np.prod(shp))).reshape(shp), units="K")
+            else:
+                # same shape, axes stated explicitly although already recorded
+                kw["axes"] = axes
+            return True
+        if name == "transpose" and nd >= 2:
+            # square data with two equal-sized axes swapped
+            eq = [(i, j) for i in range(nd) for j in range(i + 1, nd) if shape[i] == shape[j]]
+            perm = list(range(nd))
+            i, j = rng.choice(eq) if eq else (0, nd - 1)
+            perm[i], perm[j] = perm[j], perm[i]
+            kw["axes"] = perm if rng.random() < 0.7 else [k - nd for k in perm]
+            if isfield:
+                kw["constructs"] = rng.random() < 0.6
+            return True
+        if name == "squeeze":
+            ones = [i for i, s in enumerate(shape) if s == 1]
+            if not ones:
+                kw["axes"] = []
+            else:
+                kw["axes"] = rng.choice([[ones[-1] - nd], ones[::-1], ones[0], tuple(ones)])
+            return True
+        if name == "insert_dimension" and not isfield:
+            kw["position"] = rng.choice([-1, nd, -nd - 1, 0])
+            return True
+        return False
+    return True
+
+
+def make_call(x, name, kind, rng, other=None, inplace=None, style="valid"):
+    """(callable, description) or None.  `inplace` is True/False/None (None: leave the default).
+    `style` (in-place-switchable methods only): "valid" | "invalid" | "unusual", see `_perturb`."""
     C = cfdm()
     K = type(x)
     if name in UNCALLABLE:
@@ -273,6 +394,20 @@ def make_call(x, name, kind, rng, other=None, inplace=None):
             kw[pn] = val
     if inplace is not None and "inplace" in sig.parameters:
         kw["inplace"] = inplace
+    if style != "valid" and kind == "switch":
+        # positional-only parameters do not occur among the switchable methods; everything is in kw
+        for pn in list(kw):
+            if pn not in sig.parameters:
+                kw.pop(pn)
+        kw0 = dict(kw)
+        if not _perturb(x, name, kw, rng, style, d, nd):
+            # no invalid / unusual arguments exist for this method (uncompress, to_memory, …): the valid ones
+            kw.clear()
+            kw.update(kw0)
+            style = "valid"
+        for pn in list(kw):
+            if pn not in sig.parameters and not any(q.kind == q.VAR_KEYWORD for q in sig.parameters.values()):
+                kw.pop(pn)
     if name == "set_construct" and "construct" in kw:
         c, extra = kw.pop("construct")
         kw["construct"] = c
@@ -281,7 +416,10 @@ def make_call(x, name, kind, rng, other=None, inplace=None):
     if name == "replace" and "construct" in kw:
         kw["construct"] = kw["construct"][0]
     desc = f"{name}({', '.join([_short(a)[:40] for a in args] + [k + '=' + _short(v) for k, v in kw.items()])})"
-    return (lambda: f(*args, **kw)), desc
+    call = (lambda: f(*args, **kw))
+    call.kw = kw            # for the evidence tags of the correspondence module
+    call.style = style
+    return call, desc
 
 
 def _short(v):
@@ -514,6 +652,9 @@ def _arg(x, name, pn, rng, required, d, nd, other):
         return _SKIP
     if pn in ("ignore_data_type", "ignore_fill_value", "ignore_type", "ignore_compression"):
         return rng.random() < 0.5 if not opt(0.2) else _SKIP
+    if pn == "constructs" and name in ("transpose", "insert_dimension"):
+        # Field.transpose / insert_dimension: also act on the metadata constructs
+        return rng.random() < 0.5 if not opt(0.6) else _SKIP
     if pn in ("shape", "dataset", "address", "constructs"):
         return _SKIP
     if pn in ("filename",):
